@@ -54,6 +54,15 @@ _cid_memo = {}
 
 
 def expand(ob, extra_terms=(), relevant=False):
+    """quantifier-free hypothesis list and negated goal for an obligation (memoised per obligation)."""
+    key_ = ('expand', bool(relevant), tuple(t.get_id() for t in extra_terms), len(ob.hyps))
+    cache = ob.__dict__.setdefault('_expand_cache', {})
+    if key_ not in cache: cache[key_] = _expand(ob, extra_terms, relevant)
+    h, g = cache[key_]
+    return list(h), g
+
+
+def _expand(ob, extra_terms=(), relevant=False):
     """quantifier-free hypothesis list and negated goal for an obligation.
     relevant=True keeps only the hypotheses in the cone of influence of the goal (a weakening: sound for 'unsat')"""
     hyps = []; qs = []
